@@ -71,7 +71,7 @@ class AV:
 
 
 TOP = AV()
-_SX_NODES = (ast.BinOp, ast.Compare, ast.Call, ast.Subscript, ast.UnaryOp, ast.Attribute, ast.IfExp)
+_SX_NODES = (ast.BinOp, ast.Compare, ast.Call, ast.Subscript, ast.UnaryOp, ast.Attribute, ast.IfExp, ast.Tuple, ast.List)
 _SX_TYS = frozenset([None, 'ndarray', 'float', 'int', 'Series', 'DataFrame', 'list', 'tuple', 'bool', 'Row', 'FloatWithUnit', 'Lattice', 'Structure',
                      'dict', 'str', 'set'])
 _SX_PARSE = {}
@@ -643,6 +643,9 @@ class Interp:
             base = self.eval(t.value, frame, st)
             self.model.on_store(self, st, frame, 'attr', t, base, None, v, stmt=stmt)
             v = self.model.on_attr_assign(self, base, t.attr, v)
+            if v.sx is not None:
+                # the defining expression is meaningful only inside the function that made the assignment
+                v = v.w(sx_fn=frame.fn.qualname if (frame is not None and frame.fn is not None) else None)
             if base.ty == 'obj' and base.oid in st.heap:
                 st.heap[base.oid][t.attr] = v
             self.values_store(t, v, frame)
@@ -816,7 +819,8 @@ class Interp:
             if v is None:
                 v = TOP
             if type(node) in _SX_NODES and v.const is None and v.ty in _SX_TYS:
-                if not (isinstance(node, ast.Attribute) and v.sx is not None and self._is_data_attr(node, st)):
+                if not (isinstance(node, ast.Attribute) and v.sx is not None and self._is_data_attr(node, st)
+                        and v.sx_fn is not None and frame is not None and frame.fn is not None and v.sx_fn == frame.fn.qualname):
                     v = v.w(sx=self.sx_build(node))
         self.values_store(node, v, frame)
         return v
